@@ -175,10 +175,19 @@ def typestate(ctx):
     R.rule("C01-D1c create writes the refreshed bytes", 3, "to_suit_file writes prepare_suit_data(data); create uses the 'suit' serializer")
     io = repo.func("suit_generator.input_output", "InputOutputMixin.to_suit_file")
     oo = [o for o in ev.outcomes(io) if o.kind == "return"]
-    w = [e for o in oo for e in all_effects(o.effects) if isinstance(e, App) and e.op == "eff:write"]
-    ok = len(w) == 1 and isinstance(w[0].args[1], App) and w[0].args[1].op == "call" and isinstance(w[0].args[1].args[0], Ref) \
-        and w[0].args[1].args[0].obj.name == "prepare_suit_data" and w[0].args[1].args[-1] == P("data") \
-        and w[0].args[0] == App("open", (P("file_name"), Const("wb")))
+    def _unfree(t):
+        # a name captured by a lambda / local function from the enclosing function is that function's parameter
+        if isinstance(t, Sym) and t.name.startswith("free:") and t.name[5:] in io.params():
+            return P(t.name[5:])
+        if isinstance(t, App):
+            return App(t.op, tuple(_unfree(a_) for a_ in t.args), t.node)
+        return t
+    w = [_unfree(e) for o in oo for e in all_effects(o.effects) if isinstance(e, App) and e.op == "eff:write"]
+    def _is_prepare(t):
+        return isinstance(t, App) and t.args and t.args[-1] == P("data") and (
+            (t.op == "call" and isinstance(t.args[0], Ref) and t.args[0].obj.name == "prepare_suit_data")
+            or (t.op == "meth:prepare_suit_data" and t.args[0] in (P("self"), P("cls"))))
+    ok = len(w) == 1 and _is_prepare(w[0].args[1]) and w[0].args[0] == App("open", (P("file_name"), Const("wb")))
     R.check("C01-D1c create writes the refreshed bytes", ok, "to_suit_file", mod=io.module, node=io.node, function=ctx.fq(io),
             expected="open(file_name, 'wb').write(self.prepare_suit_data(data))", found=repr(w)[:200])
     # ... and prepare_suit_data returns the encoding of the very object it refreshed
